@@ -62,6 +62,9 @@ def case_st(draw, allow_fbmc=False):
     scn["calc"] = "fast"
     # entry names in a generated (generally non-alphabetical) order: the table order is part of the state
     scn["names"] = list(draw(st.permutations(["zeta", "alpha", "mid", "beta"])))
+    if draw(st.integers(0, 2)) == 0:
+        # the drivers' own default entry names, with user-tuned weights
+        scn["names"] = list(draw(st.permutations(["default_displacement_move", "default_cell_move", "default_exchange_move", "zeta"])))
     scn.pop("alias_of", None)
     return {"scn": scn, "n": draw(st.integers(4, 9))}
 
